@@ -333,3 +333,5 @@ class C20(Check):
 
 
 CHECK = C20()
+# scope added in later rounds, kept in the evidence text
+CHECK.rule += ' Scaffolds created without a rank argument (class default).'
